@@ -130,3 +130,7 @@ mod tests {
         }
     ];
 }
+
+#[cfg(kani)]
+#[path = "/verif/kani/std_abs.rs"]
+mod kani_verif;
